@@ -77,7 +77,7 @@ class PipeWorld(OracleWorld):
                 return (ip.INLINE, r[1], r[2], lambda mm, ss, v: Ref(("val", v)))
             return Ref(("val", r))
         r = OracleWorld.call(self, m, st, callee, args, term)
-        if r is None and p not in m.models and p not in self.prog.bodies and not callee.get("virtual"):
+        if r is None and p not in m.models and not self.prog.is_ws(p) and not (p in self.prog.bodies and m.ext_simple(p)) and not callee.get("virtual"):
             raise UnexpectedCall("calls %s, which is not a step of the specified pipeline (every transforming or inspecting step must be one of the profile's rules)" % callee["full"])
         return r
 
